@@ -63,30 +63,41 @@ Proof. unfold phase_eqb; rewrite Z.eqb_eq; split; [apply phase_code_inj|now intr
 Lemma phase_eqb_false a b : phase_eqb a b = false <-> a <> b.
 Proof. rewrite <- phase_eqb_true; destruct (phase_eqb a b); split; congruence. Qed.
 
+Section Cfg.
+Variable c : config.
+
 (* i' was obtained from i by emitting `added` (newest first) along a well-ordered chain of progress points *)
 Definition Rc (i i' : inst) : Prop := exists added, i_out i' = added ++ i_out i /\ chain_ok (pkey i) (rev added) (pkey i').
 (* frame: a recorded internal error persists, the DECIDE quorum state is untouched *)
+(* the decision report is either untouched or was just produced by tryDecide from the DECIDE quorum state *)
+Definition Tm (i i' : inst) : Prop :=
+  i_term i' = i_term i \/
+  exists v signers, i_term i' = Some (build_just 0 DECIDE v signers) /\
+                    q_find_sq_value (i_decision i) = FsvSome v /\ q_find_sq_for c (i_decision i) v = FsqSome signers.
 Definition Fr (i i' : inst) : Prop :=
   (forall e, i_err i = Some e -> i_err i' = Some e) /\ i_decision i' = i_decision i /\
-  incl (i_cands i) (i_cands i') /\ i_input i' = i_input i.
+  incl (i_cands i) (i_cands i') /\ i_input i' = i_input i /\ Tm i i'.
 Definition R (i i' : inst) : Prop := Rc i i' /\ Fr i i'.
 
-Lemma Fr_eq i i' : i_err i' = i_err i -> i_decision i' = i_decision i -> incl (i_cands i) (i_cands i') -> i_input i' = i_input i -> Fr i i'.
-Proof. intros E1 E2 E3 E4; split; [intros e H; congruence|split; [exact E2|split; assumption]]. Qed.
+Lemma Fr_eq i i' : i_err i' = i_err i -> i_decision i' = i_decision i -> incl (i_cands i) (i_cands i') -> i_input i' = i_input i -> i_term i' = i_term i -> Fr i i'.
+Proof. intros E1 E2 E3 E4 E5; split; [intros e H; congruence|split; [exact E2|split; [assumption|split; [assumption|left; assumption]]]]. Qed.
 Lemma Fr_refl i : Fr i i. Proof. apply Fr_eq; try reflexivity. apply incl_refl. Qed.
-Lemma Fr_trans a b c : Fr a b -> Fr b c -> Fr a c.
+Lemma Fr_trans a b c0 : Fr a b -> Fr b c0 -> Fr a c0.
 Proof.
-  intros (H1 & H2 & H3 & H4) (H5 & H6 & H7 & H8); split; [intros e H; auto|split; [congruence|split; [|congruence]]].
-  eapply incl_tran; eauto.
+  intros (H1 & H2 & H3 & H4 & H4t) (H5 & H6 & H7 & H8 & H8t); split; [intros e H; auto|split; [congruence|split; [|split; [congruence|]]]].
+  - eapply incl_tran; eauto.
+  - destruct H8t as [E|(v & sg & E & F1 & F2)].
+    + destruct H4t as [E'|(v & sg & E' & F1 & F2)]; [left; congruence|right; exists v, sg; repeat split; congruence].
+    + right. exists v, sg. rewrite <- H2. repeat split; assumption.
 Qed.
 Lemma Fr_fail i e : Fr i (fail i e).
-Proof. split; [|split; [reflexivity|split; [apply incl_refl|reflexivity]]]. intros e0 H. cbn. rewrite H. reflexivity. Qed.
-Ltac fr_eq := apply Fr_eq; [reflexivity|reflexivity|apply incl_refl|reflexivity].
+Proof. split; [|split; [reflexivity|split; [apply incl_refl|split; [reflexivity|left; reflexivity]]]]. intros e0 H. cbn. rewrite H. reflexivity. Qed.
+Ltac fr_eq := apply Fr_eq; [reflexivity|reflexivity|apply incl_refl|reflexivity|reflexivity].
 
 Lemma Rc_intro added i i' : i_out i' = added ++ i_out i -> chain_ok (pkey i) (rev added) (pkey i') -> Rc i i'.
 Proof. intros; exists added; auto. Qed.
 Lemma Rc_refl i : Rc i i. Proof. apply (Rc_intro []); simpl; auto using kle_refl. Qed.
-Lemma Rc_trans a b c : Rc a b -> Rc b c -> Rc a c.
+Lemma Rc_trans a b c0 : Rc a b -> Rc b c0 -> Rc a c0.
 Proof.
   intros (l1 & E1 & C1) (l2 & E2 & C2). apply (Rc_intro (l2 ++ l1)).
   - rewrite E2, E1, app_assoc; reflexivity.
@@ -98,7 +109,7 @@ Proof. intros (l & _ & C). eapply chain_ok_kle; eauto. Qed.
 Lemma R_intro added i i' : i_out i' = added ++ i_out i -> chain_ok (pkey i) (rev added) (pkey i') -> Fr i i' -> R i i'.
 Proof. intros; split; [eapply Rc_intro; eauto|assumption]. Qed.
 Lemma R_refl i : R i i. Proof. split; [apply Rc_refl|apply Fr_refl]. Qed.
-Lemma R_trans a b c : R a b -> R b c -> R a c.
+Lemma R_trans a b c0 : R a b -> R b c0 -> R a c0.
 Proof. intros [H1 H2] [H3 H4]; split; [eapply Rc_trans; eauto|eapply Fr_trans; eauto]. Qed.
 Lemma R_kle a b : R a b -> kle (pkey a) (pkey b).
 Proof. intros [H _]; apply Rc_kle; exact H. Qed.
@@ -106,13 +117,13 @@ Proof. intros [H _]; apply Rc_kle; exact H. Qed.
 (* quiet changes: outputs, progress, error and DECIDE state untouched *)
 Definition same (i i' : inst) : Prop :=
   i_out i' = i_out i /\ pkey i' = pkey i /\ i_err i' = i_err i /\ i_decision i' = i_decision i /\
-  incl (i_cands i) (i_cands i') /\ i_input i' = i_input i.
+  incl (i_cands i) (i_cands i') /\ i_input i' = i_input i /\ i_term i' = i_term i.
 Ltac same_triv := repeat split; try reflexivity; try assumption; apply incl_refl.
 Lemma same_refl i : same i i. Proof. same_triv. Qed.
-Lemma same_trans a b c : same a b -> same b c -> same a c.
-Proof. intros (A1 & A2 & A3 & A4 & A5 & A6) (B1 & B2 & B3 & B4 & B5 & B6); repeat split; try congruence. eapply incl_tran; eauto. Qed.
+Lemma same_trans a b c0 : same a b -> same b c0 -> same a c0.
+Proof. intros (A1 & A2 & A3 & A4 & A5 & A6 & A7) (B1 & B2 & B3 & B4 & B5 & B6 & B7); repeat split; try congruence. eapply incl_tran; eauto. Qed.
 Lemma R_same i i' : same i i' -> R i i'.
-Proof. intros (E1 & E2 & E3 & E4 & E5 & E6). apply (R_intro []); simpl; auto; [rewrite E2; apply kle_refl|apply Fr_eq; assumption]. Qed.
+Proof. intros (E1 & E2 & E3 & E4 & E5 & E6 & E7). apply (R_intro []); simpl; auto; [rewrite E2; apply kle_refl|apply Fr_eq; assumption]. Qed.
 Lemma same_phase i i' : same i i' -> i_phase i' = i_phase i.
 Proof. intros (_ & E & _). apply phase_code_inj. change (snd (pkey i') = snd (pkey i)). rewrite E; reflexivity. Qed.
 Lemma same_round i i' : same i i' -> i_round i' = i_round i.
@@ -127,7 +138,7 @@ Lemma R_fail i e : R i (fail i e).
 Proof. apply (R_intro []); [reflexivity|apply kle_refl|apply Fr_fail]. Qed.
 
 (* ---- building blocks ---- *)
-Lemma R_alarm_after c i q : R i (alarm_after c i q).
+Lemma R_alarm_after i q : R i (alarm_after c i q).
 Proof. unfold alarm_after. eapply R_trans; [|apply R_emit; exact I]. r_quiet. Qed.
 Lemma R_reset i : R i (reset_rebroadcast i). Proof. r_quiet. Qed.
 Lemma R_do_rebroadcast i : R i (do_rebroadcast i).
@@ -138,7 +149,7 @@ Qed.
 Lemma pkey_do_rebroadcast i : pkey (do_rebroadcast i) = pkey i.
 Proof. unfold do_rebroadcast. destruct (i_phase i); try reflexivity; destruct (0 <? _); reflexivity. Qed.
 
-Lemma R_try_rebroadcast c i : R i (try_rebroadcast c i).
+Lemma R_try_rebroadcast i : R i (try_rebroadcast c i).
 Proof.
   unfold try_rebroadcast. destruct (i_rtimeout i) as [rt|].
   - destruct (rt <=? i_now i); [|apply R_refl].
@@ -150,7 +161,7 @@ Proof.
     repeat match goal with |- context [if ?b then _ else _] => destruct b end;
       try (eapply R_trans; [|apply R_emit; exact I]); r_quiet.
 Qed.
-Lemma pkey_try_rebroadcast c i : pkey (try_rebroadcast c i) = pkey i.
+Lemma pkey_try_rebroadcast i : pkey (try_rebroadcast c i) = pkey i.
 Proof.
   unfold try_rebroadcast. destruct (i_rtimeout i) as [rt|].
   - destruct (rt <=? i_now i); [|reflexivity].
@@ -163,9 +174,9 @@ Qed.
 Lemma R_advance_bcast i i' quiet r p v j t :
   i_out i' = OBroadcast r p v j t :: quiet ++ i_out i ->
   Forall not_bcast quiet -> klt (pkey i) (pkey i') -> okey r p (pkey i') ->
-  i_err i' = i_err i -> i_decision i' = i_decision i -> incl (i_cands i) (i_cands i') -> i_input i' = i_input i -> R i i'.
+  i_err i' = i_err i -> i_decision i' = i_decision i -> incl (i_cands i) (i_cands i') -> i_input i' = i_input i -> i_term i' = i_term i -> R i i'.
 Proof.
-  intros E Hq Hlt Hk He Hd Hc Hi. apply (R_intro (OBroadcast r p v j t :: quiet)); [exact E| |apply Fr_eq; assumption].
+  intros E Hq Hlt Hk He Hd Hc Hi Hterm. apply (R_intro (OBroadcast r p v j t :: quiet)); [exact E| |apply Fr_eq; assumption].
   simpl. assert (G : forall p0, chain_ok p0 (rev quiet) p0).
   { intros p0. apply Forall_rev in Hq. induction Hq as [|o l Ho _ IH]; simpl; [apply kle_refl|]. destruct o; simpl in Ho; try contradiction; exact IH. }
   eapply chain_ok_app; [apply G|]. simpl. exists (pkey i'); repeat split; auto; apply kle_refl || apply Hlt.
@@ -173,23 +184,23 @@ Qed.
 
 Lemma okey_same r p : p <> DECIDE -> okey r p (r, phase_code p). Proof. intros H; right; auto. Qed.
 
-Lemma R_begin_prepare c i j : phase_code (i_phase i) < 3 -> R i (begin_prepare c i j).
+Lemma R_begin_prepare i j : phase_code (i_phase i) < 3 -> R i (begin_prepare c i j).
 Proof.
   intros H. unfold begin_prepare, broadcast, reset_rebroadcast, alarm_after.
-  eapply (R_advance_bcast _ _ [_]); [reflexivity|repeat constructor| |apply okey_same; discriminate|reflexivity|reflexivity|apply incl_refl|reflexivity].
+  eapply (R_advance_bcast _ _ [_]); [reflexivity|repeat constructor| |apply okey_same; discriminate|reflexivity|reflexivity|apply incl_refl|reflexivity|reflexivity].
   unfold klt, pkey; cbn. lia.
 Qed.
-Lemma pkey_begin_prepare c i j : pkey (begin_prepare c i j) = (i_round i, 3).
+Lemma pkey_begin_prepare i j : pkey (begin_prepare c i j) = (i_round i, 3).
 Proof. reflexivity. Qed.
 
-Lemma R_begin_commit c i : phase_code (i_phase i) < 4 -> R i (begin_commit c i).
+Lemma R_begin_commit i : phase_code (i_phase i) < 4 -> R i (begin_commit c i).
 Proof.
   intros H. unfold begin_commit, broadcast.
   set (i1 := reset_rebroadcast (alarm_after c (set_progress i (i_round i) COMMIT) false)).
   assert (Hq : R i i1). { unfold i1. eapply R_trans; [|apply R_reset]. eapply R_trans; [|apply R_alarm_after]. apply (R_intro []); [reflexivity| |fr_eq]. simpl. right. unfold klt, pkey; cbn; lia. }
   assert (Hb : forall v j, R i (emit i1 (OBroadcast (i_round i1) COMMIT v j false))).
   { intros v j. unfold i1, reset_rebroadcast, alarm_after.
-    eapply (R_advance_bcast _ _ [_]); [reflexivity|repeat constructor| |apply okey_same; discriminate|reflexivity|reflexivity|apply incl_refl|reflexivity].
+    eapply (R_advance_bcast _ _ [_]); [reflexivity|repeat constructor| |apply okey_same; discriminate|reflexivity|reflexivity|apply incl_refl|reflexivity|reflexivity].
     unfold klt, pkey; cbn; lia. }
   destruct (i_value i1) eqn:Ev; [apply Hb|].
   repeat match goal with
@@ -198,7 +209,7 @@ Proof.
          | |- R i (match ?x with _ => _ end) => destruct x
          end.
 Qed.
-Lemma pkey_begin_commit c i : pkey (begin_commit c i) = (i_round i, 4).
+Lemma pkey_begin_commit i : pkey (begin_commit c i) = (i_round i, 4).
 Proof.
   unfold begin_commit, broadcast.
   set (i1 := reset_rebroadcast (alarm_after c (set_progress i (i_round i) COMMIT) false)).
@@ -206,38 +217,38 @@ Proof.
   repeat match goal with |- context [match ?x with _ => _ end] => destruct x end; reflexivity.
 Qed.
 
-Lemma R_begin_decide c i round : phase_code (i_phase i) < 5 -> R i (begin_decide c i round).
+Lemma R_begin_decide i round : phase_code (i_phase i) < 5 -> R i (begin_decide c i round).
 Proof.
   intros H. unfold begin_decide, broadcast.
   set (i1 := reset_rebroadcast (set_progress i (i_round i) DECIDE)).
   assert (Hq : R i i1). { apply (R_intro []); [reflexivity| |fr_eq]. simpl. right. unfold klt, pkey; cbn; lia. }
   destruct (q_find_sq_for c _ _); try (eapply R_trans; [exact Hq|apply R_fail]).
-  eapply (R_advance_bcast _ _ []); [reflexivity|constructor| |left; auto|reflexivity|reflexivity|apply incl_refl|reflexivity].
+  eapply (R_advance_bcast _ _ []); [reflexivity|constructor| |left; auto|reflexivity|reflexivity|apply incl_refl|reflexivity|reflexivity].
   unfold klt, pkey; cbn; lia.
 Qed.
-Lemma pkey_begin_decide c i round : pkey (begin_decide c i round) = (i_round i, 5).
+Lemma pkey_begin_decide i round : pkey (begin_decide c i round) = (i_round i, 5).
 Proof. unfold begin_decide, broadcast. destruct (q_find_sq_for c _ _); reflexivity. Qed.
 
 Lemma R_skip_to_decide i v j : phase_code (i_phase i) < 5 -> R i (skip_to_decide i v j).
 Proof.
   intros H. unfold skip_to_decide, broadcast.
-  eapply (R_advance_bcast _ _ []); [reflexivity|constructor| |left; auto|reflexivity|reflexivity|apply incl_refl|reflexivity].
+  eapply (R_advance_bcast _ _ []); [reflexivity|constructor| |left; auto|reflexivity|reflexivity|apply incl_refl|reflexivity|reflexivity].
   unfold klt, pkey; cbn; lia.
 Qed.
 
 (* beginConverge entered with the round already advanced: the old key lies strictly below (round, CONVERGE) *)
-Lemma R_begin_converge c i0 i j :
-  i_out i = i_out i0 -> i_err i = i_err i0 -> i_decision i = i_decision i0 -> incl (i_cands i0) (i_cands i) -> i_input i = i_input i0 ->
+Lemma R_begin_converge i0 i j :
+  i_out i = i_out i0 -> i_err i = i_err i0 -> i_decision i = i_decision i0 -> incl (i_cands i0) (i_cands i) -> i_input i = i_input i0 -> i_term i = i_term i0 ->
   klt (pkey i0) (i_round i, 2) -> kle (pkey i0) (pkey i) -> R i0 (begin_converge c i j).
 Proof.
-  intros Eo Ee Ed Ec Ei Hlt Hle. unfold begin_converge.
+  intros Eo Ee Ed Ec Ei Et Hlt Hle. unfold begin_converge.
   destruct (negb _).
-  - apply (R_intro []); [exact Eo|exact Hle|]. split; [|split; [exact Ed|split; [exact Ec|exact Ei]]]. intros e H. cbn. rewrite Ee, H. reflexivity.
+  - apply (R_intro []); [exact Eo|exact Hle|]. split; [|split; [exact Ed|split; [exact Ec|split; [exact Ei|left; exact Et]]]]. intros e H. cbn. rewrite Ee, H. reflexivity.
   - unfold broadcast, reset_rebroadcast, alarm_after.
-    eapply (R_advance_bcast _ _ [_]); [cbn; rewrite Eo; reflexivity|repeat constructor|exact Hlt|apply okey_same; discriminate|exact Ee|exact Ed|exact Ec|exact Ei].
+    eapply (R_advance_bcast _ _ [_]); [cbn; rewrite Eo; reflexivity|repeat constructor|exact Hlt|apply okey_same; discriminate|exact Ee|exact Ed|exact Ec|exact Ei|exact Et].
 Qed.
 
-Lemma R_begin_next_round c i : i_phase i = COMMIT -> R i (begin_next_round c i).
+Lemma R_begin_next_round i : i_phase i = COMMIT -> R i (begin_next_round c i).
 Proof.
   intros Hp. unfold begin_next_round.
   set (i1 := set_progress i (i_round i + 1) (i_phase i)).
@@ -246,7 +257,7 @@ Proof.
   assert (Hf : forall e, R i (fail i1 e)). { intros e. apply (R_intro []); [reflexivity|exact Hle|apply (Fr_fail i e)]. }
   repeat match goal with
          | |- R i (fail _ _) => apply Hf
-         | |- R i (begin_converge _ _ _) => apply R_begin_converge; [reflexivity|reflexivity|reflexivity|apply incl_refl|reflexivity|exact Hlt|exact Hle]
+         | |- R i (begin_converge _ _ _) => apply R_begin_converge; [reflexivity|reflexivity|reflexivity|apply incl_refl|reflexivity|reflexivity|exact Hlt|exact Hle]
          | |- R i (match ?x with _ => _ end) => destruct x
          end.
 Qed.
@@ -261,7 +272,7 @@ Proof.
 Qed.
 Lemma same_set_pv i p v : same i (set_pv i p v). Proof. same_triv. Qed.
 
-Lemma R_skip_to_round c i round v j : i_round i < round -> phase_code (i_phase i) < 5 -> R i (skip_to_round c i round v j).
+Lemma R_skip_to_round i round v j : i_round i < round -> phase_code (i_phase i) < 5 -> R i (skip_to_round c i round v j).
 Proof.
   intros Hr Hp. unfold skip_to_round.
   set (i1 := set_progress i round (i_phase i)).
@@ -275,17 +286,24 @@ Proof.
   assert (E3 : same i1 i3).
   { unfold i3. destruct (phase_eqb (j_phase j) PREPARE); [|exact E2].
     eapply same_trans; [exact E2|]. eapply same_trans; [apply same_add_candidate|apply same_set_pv]. }
-  pose proof (same_round _ _ E3) as Er. destruct E3 as (E3 & E4 & E5 & E6 & E7 & E8).
-  apply R_begin_converge; [exact E3|exact E5|exact E6|exact E7|exact E8| |].
+  pose proof (same_round _ _ E3) as Er. destruct E3 as (E3 & E4 & E5 & E6 & E7 & E8 & E9).
+  apply R_begin_converge; [exact E3|exact E5|exact E6|exact E7|exact E8|exact E9| |].
   - rewrite Er. unfold klt, pkey, i1; cbn. lia.
   - rewrite E4. right. unfold klt, pkey, i1; cbn. lia.
 Qed.
 
-Lemma R_terminate i j : phase_code (i_phase i) < 6 -> R i (terminate i j).
-Proof. intros H. apply (R_intro []); [reflexivity| |fr_eq]. simpl. right. unfold klt, pkey; cbn. lia. Qed.
+Lemma R_terminate i v signers :
+  phase_code (i_phase i) < 6 -> q_find_sq_value (i_decision i) = FsvSome v -> q_find_sq_for c (i_decision i) v = FsqSome signers ->
+  R i (terminate i (build_just 0 DECIDE v signers)).
+Proof.
+  intros H F1 F2. apply (R_intro []); [reflexivity| |].
+  - simpl. right. unfold klt, pkey; cbn. lia.
+  - split; [intros e He; exact He|split; [reflexivity|split; [apply incl_refl|split; [reflexivity|]]]].
+    right. exists v, signers. repeat split; assumption.
+Qed.
 
 (* ---- try* ---- *)
-Lemma R_try_quality c i : i_phase i = QUALITY -> R i (try_quality c i).
+Lemma R_try_quality i : i_phase i = QUALITY -> R i (try_quality c i).
 Proof.
   intros Hp. unfold try_quality. destruct (_ || _); [|apply R_refl].
   set (p := q_longest_prefix _ _).
@@ -295,7 +313,7 @@ Proof.
   apply R_begin_prepare. rewrite (same_phase _ _ S), Hp. cbn. lia.
 Qed.
 
-Lemma R_try_converge c i : i_phase i = CONVERGE -> R i (try_converge c i).
+Lemma R_try_converge i : i_phase i = CONVERGE -> R i (try_converge c i).
 Proof.
   intros Hp. unfold try_converge. destruct (negb _).
   - destruct (should_rebroadcast c i); [apply R_try_rebroadcast|apply R_refl].
@@ -306,7 +324,7 @@ Proof.
     apply R_begin_prepare. rewrite (same_phase _ _ S), Hp. cbn. lia.
 Qed.
 
-Lemma R_try_prepare c i : i_phase i = PREPARE -> R i (try_prepare c i).
+Lemma R_try_prepare i : i_phase i = PREPARE -> R i (try_prepare c i).
 Proof.
   intros Hp. unfold try_prepare.
   cbv zeta. match goal with |- R i (if _ then begin_commit c ?x else _) => set (i1 := x) end.
@@ -318,7 +336,7 @@ Proof.
     destruct (should_rebroadcast c i1); [apply R_try_rebroadcast|apply R_refl].
 Qed.
 
-Lemma R_try_commit c i round sway : phase_code (i_phase i) < 5 -> R i (try_commit c i round sway).
+Lemma R_try_commit i round sway : phase_code (i_phase i) < 5 -> R i (try_commit c i round sway).
 Proof.
   intros Hp. unfold try_commit.
   assert (Hd : forall p v, R i (begin_decide c (set_pv i p v) round)).
@@ -353,13 +371,13 @@ Proof.
   - apply Hd.
 Qed.
 
-Lemma R_try_decide c i : i_phase i = DECIDE -> R i (try_decide c i).
+Lemma R_try_decide i : i_phase i = DECIDE -> R i (try_decide c i).
 Proof.
-  intros Hp. unfold try_decide. destruct (q_find_sq_value _) as [| |v]; [apply R_try_rebroadcast|apply R_fail|].
-  destruct (q_find_sq_for c _ _); try apply R_fail. apply R_terminate. rewrite Hp; cbn; lia.
+  intros Hp. unfold try_decide. destruct (q_find_sq_value _) as [| |v] eqn:F1; [apply R_try_rebroadcast|apply R_fail|].
+  destruct (q_find_sq_for c _ _) eqn:F2; try apply R_fail. apply R_terminate; [rewrite Hp; cbn; lia|exact F1|exact F2].
 Qed.
 
-Lemma R_try_current_phase c i sway : R i (try_current_phase c i sway).
+Lemma R_try_current_phase i sway : R i (try_current_phase c i sway).
 Proof.
   unfold try_current_phase. destruct (i_phase i) eqn:Hp.
   - apply R_fail.
@@ -371,16 +389,16 @@ Proof.
   - apply R_refl.
 Qed.
 
-Lemma R_begin_quality c i : R i (begin_quality c i).
+Lemma R_begin_quality i : R i (begin_quality c i).
 Proof.
   unfold begin_quality. destruct (negb _) eqn:Hc; [apply R_fail|].
   apply negb_false_iff, phase_eqb_true in Hc.
   unfold broadcast, reset_rebroadcast, alarm_after.
-  eapply (R_advance_bcast _ _ [_]); [reflexivity|repeat constructor| |apply okey_same; discriminate|reflexivity|reflexivity|apply incl_refl|reflexivity].
+  eapply (R_advance_bcast _ _ [_]); [reflexivity|repeat constructor| |apply okey_same; discriminate|reflexivity|reflexivity|apply incl_refl|reflexivity|reflexivity].
   unfold klt, pkey; cbn. rewrite Hc; cbn. lia.
 Qed.
 
-Lemma R_post_receive c i round : phase_code (i_phase i) < 6 -> R i (post_receive c i round).
+Lemma R_post_receive i round : phase_code (i_phase i) < 6 -> R i (post_receive c i round).
 Proof.
   intros Hnt. unfold post_receive. destruct (_ || _) eqn:Hc; [apply R_refl|].
   apply orb_false_elim in Hc. destruct Hc as [Hr Hp]. apply Z.leb_gt in Hr. apply phase_eqb_false in Hp.
@@ -397,25 +415,25 @@ Lemma kle_round a b : kle a b -> fst a <= fst b.
 Proof. intros [->|[[H|[H1 H2]] H3]]; lia. Qed.
 Lemma phase_code_range p : 0 <= phase_code p <= 6. Proof. destruct p; cbn; lia. Qed.
 
-Lemma phase_begin_converge c i j : i_phase (begin_converge c i j) = i_phase i \/ i_phase (begin_converge c i j) = CONVERGE.
+Lemma phase_begin_converge i j : i_phase (begin_converge c i j) = i_phase i \/ i_phase (begin_converge c i j) = CONVERGE.
 Proof. unfold begin_converge. destruct (negb _); [left|right]; reflexivity. Qed.
-Lemma phase_begin_next_round c i : i_phase (begin_next_round c i) = i_phase i \/ i_phase (begin_next_round c i) = CONVERGE.
+Lemma phase_begin_next_round i : i_phase (begin_next_round c i) = i_phase i \/ i_phase (begin_next_round c i) = CONVERGE.
 Proof.
   unfold begin_next_round.
   repeat match goal with
-         | |- context [begin_converge ?c ?x ?j] => let H := fresh in destruct (phase_begin_converge c x j) as [H|H]; rewrite H; clear H
+         | |- context [begin_converge ?c ?x ?j] => let H := fresh in destruct (phase_begin_converge x j) as [H|H]; rewrite H; clear H
          | |- _ \/ _ => first [left; reflexivity | right; reflexivity]
          | |- context [match ?x with _ => _ end] => destruct x
          end.
 Qed.
 
-Lemma phase_try_commit c i round sway :
+Lemma phase_try_commit i round sway :
   phase_code (i_phase i) < 5 -> phase_code (i_phase (try_commit c i round sway)) <= 5.
 Proof.
-  intros Hp. pose proof (R_kle _ _ (R_try_commit c i round sway Hp)) as Hk.
+  intros Hp. pose proof (R_kle _ _ (R_try_commit i round sway Hp)) as Hk.
   unfold try_commit in *.
   assert (G : forall x, same i x -> phase_code (i_phase (begin_next_round c x)) <= 5).
-  { intros x S. destruct (phase_begin_next_round c x) as [E|E]; rewrite E; [rewrite (same_phase _ _ S); lia|cbn; lia]. }
+  { intros x S. destruct (phase_begin_next_round x) as [E|E]; rewrite E; [rewrite (same_phase _ _ S); lia|cbn; lia]. }
   destruct (q_find_sq_value (r_comm (get_round i round))) as [| |[|x v]].
   - destruct (negb _ || negb _); [lia|]. destruct (false || _); [apply G, same_refl|].
     destruct (_ && _).
@@ -427,7 +445,7 @@ Proof.
   - change (snd (pkey (begin_decide c (set_pv i (i_proposal i) (x :: v)) round)) <= 5). rewrite pkey_begin_decide. cbn; lia.
 Qed.
 
-Lemma phase_try_current_lt5 c i sway :
+Lemma phase_try_current_lt5 i sway :
   phase_code (i_phase i) < 5 -> phase_code (i_phase (try_current_phase c i sway)) <= 5.
 Proof.
   intros Hp. unfold try_current_phase. destruct (i_phase i) eqn:E; cbn in Hp; try lia.
@@ -448,11 +466,11 @@ Proof.
 Qed.
 
 Definition dec_clear (i : inst) : Prop := i_phase i = DECIDE -> q_find_sq_value (i_decision i) = FsvNone.
-Lemma nt_try_current_phase c i sway :
+Lemma nt_try_current_phase i sway :
   dec_clear i -> i_phase i <> TERMINATED -> i_phase (try_current_phase c i sway) <> TERMINATED.
 Proof.
   intros Hd Hn. destruct (Z.lt_ge_cases (phase_code (i_phase i)) 5) as [Hlt|Hge].
-  - pose proof (phase_try_current_lt5 c i sway Hlt) as H. intros E. rewrite E in H. cbn in H. lia.
+  - pose proof (phase_try_current_lt5 i sway Hlt) as H. intros E. rewrite E in H. cbn in H. lia.
   - assert (Ep : i_phase i = DECIDE). { destruct (i_phase i); cbn in Hge; try lia; congruence. }
     unfold try_current_phase. rewrite Ep. unfold try_decide. rewrite (Hd Ep).
     intros E. assert (H : snd (pkey (try_rebroadcast c i)) = 6) by (cbn; rewrite E; reflexivity).
@@ -463,7 +481,7 @@ Qed.
 Lemma same_set_round_state i r s : same i (set_round_state i r s). Proof. same_triv. Qed.
 Lemma same_set_quality i q : same i (set_quality i q). Proof. same_triv. Qed.
 
-Lemma R_receive_one c i m sway : m_phase m <> DECIDE -> R i (fst (receive_one c i m sway)).
+Lemma R_receive_one i m sway : m_phase m <> DECIDE -> R i (fst (receive_one c i m sway)).
 Proof.
   intros Hm. unfold receive_one.
   destruct (phase_eqb (i_phase i) TERMINATED) eqn:Ht; [apply R_refl|]. apply phase_eqb_false in Ht.
@@ -494,7 +512,7 @@ Qed.
 Lemma dec_clear_same i x : same i x -> dec_clear i -> dec_clear x.
 Proof. intros S Hd E. pose proof (same_phase _ _ S) as Sp. destruct S as (S1 & S2 & S3 & S4 & _). rewrite S4. apply Hd. congruence. Qed.
 
-Lemma nt_receive_one c i m sway :
+Lemma nt_receive_one i m sway :
   m_phase m <> DECIDE -> dec_clear i -> i_phase i <> TERMINATED -> i_phase (fst (receive_one c i m sway)) <> TERMINATED.
 Proof.
   intros Hm Hd Hn. unfold receive_one.
@@ -516,7 +534,7 @@ Proof.
     apply negb_true_iff, phase_eqb_false in Hd1.
     assert (Hlt : phase_code (i_phase i1) < 5).
     { rewrite (same_phase _ _ S) in *. destruct (i_phase i); cbn; try lia; congruence. }
-    pose proof (phase_try_commit c i1 (m_round m) sway Hlt) as Hb.
+    pose proof (phase_try_commit i1 (m_round m) sway Hlt) as Hb.
     match goal with |- context [if ?b then _ else _] => destruct b eqn:Hag end; cbn [fst].
     + apply andb_prop in Hag. destruct Hag as [Hag _]. apply andb_prop in Hag. destruct Hag as [Hag _]. apply andb_prop in Hag. destruct Hag as [_ Hag].
       apply phase_eqb_true in Hag. apply nt_try_current_phase; [intros E; congruence|congruence].
@@ -526,16 +544,16 @@ Qed.
 
 (* candidates only grow, the input never changes *)
 Definition Fc (i i' : inst) : Prop := incl (i_cands i) (i_cands i') /\ i_input i' = i_input i.
-Lemma Fc_R i i' : R i i' -> Fc i i'. Proof. intros [_ (_ & _ & H)]. exact H. Qed.
-Lemma Fc_trans a b c : Fc a b -> Fc b c -> Fc a c.
+Lemma Fc_R i i' : R i i' -> Fc i i'. Proof. intros [_ (_ & _ & H1 & H2 & _)]. split; assumption. Qed.
+Lemma Fc_trans a b c0 : Fc a b -> Fc b c0 -> Fc a c0.
 Proof. intros [H1 H2] [H3 H4]; split; [eapply incl_tran; eauto|congruence]. Qed.
 
-Lemma try_decide_clear c i :
+Lemma try_decide_clear i :
   i_phase i = DECIDE -> let i' := try_decide c i in
   i_phase i' = DECIDE -> i_err i' = None -> q_find_sq_value (i_decision i') = FsvNone.
 Proof.
   intros Hp. unfold try_decide. destruct (q_find_sq_value (i_decision i)) as [| |v] eqn:E; cbv zeta.
-  - intros _ _. destruct (R_try_rebroadcast c i) as [_ [_ [Hd _]]]. rewrite Hd. exact E.
+  - intros _ _. destruct (R_try_rebroadcast i) as [_ [_ [Hd _]]]. rewrite Hd. exact E.
   - intros _ H. cbn in H. destruct (i_err i); discriminate H.
   - destruct (q_find_sq_for c _ _).
     + intros _ H. cbn in H. destruct (i_err i); discriminate H.
@@ -545,11 +563,15 @@ Qed.
 
 (* a DECIDE message (round 0 by validation): the DECIDE quorum state changes, the participant enters or stays in
    DECIDE and tryDecide runs immediately *)
-Lemma receive_one_decide c i m sway :
+Lemma receive_one_decide i m sway :
   m_phase m = DECIDE -> m_round m = 0 -> i_phase i <> TERMINATED ->
   let i' := fst (receive_one c i m sway) in
   Rc i i' /\ (forall e, i_err i = Some e -> i_err i' = Some e) /\ 5 <= phase_code (i_phase i') /\
-  (i_phase i' = DECIDE -> i_err i' = None -> q_find_sq_value (i_decision i') = FsvNone) /\ Fc i i'.
+  (i_phase i' = DECIDE -> i_err i' = None -> q_find_sq_value (i_decision i') = FsvNone) /\ Fc i i' /\
+  i_decision i' = q_receive c (i_decision i) (m_sender m) (m_value m) /\
+  (i_term i' = i_term i \/
+   exists v sg, i_term i' = Some (build_just 0 DECIDE v sg) /\
+                q_find_sq_value (i_decision i') = FsvSome v /\ q_find_sq_for c (i_decision i') v = FsqSome sg).
 Proof.
   intros Hm Hr Ht. unfold receive_one.
   apply phase_eqb_false in Ht. rewrite Ht.
@@ -567,13 +589,19 @@ Proof.
       rewrite H1p in *. destruct (i_phase i); cbn; try lia; congruence.
     - split; [apply R_refl|]. apply negb_false_iff, phase_eqb_true in Hd. exact Hd. }
   destruct H2 as (H2 & H2p).
-  pose proof (R_try_current_phase c i2 sway) as H3.
-  split; [|split; [|split; [|split]]].
+  pose proof (R_try_current_phase i2 sway) as H3.
+  assert (Hdec : i_decision (try_current_phase c i2 sway) = i_decision i1).
+  { destruct H3 as [_ (_ & E3 & _)]. destruct H2 as [_ (_ & E2 & _)]. congruence. }
+  split; [|split; [|split; [|split; [|split; [|split]]]]].
   - eapply Rc_trans; [exact H1|]. eapply Rc_trans; [apply H2|apply H3].
   - intros e He. apply H3. apply H2. rewrite H1e. exact He.
   - apply R_kle in H3. eapply kle_phase5 in H3; [exact H3|]. cbn. rewrite H2p. cbn. lia.
   - unfold try_current_phase. rewrite H2p. apply try_decide_clear. exact H2p.
   - apply (Fc_trans i i1); [split; [apply incl_refl|reflexivity]|]. eapply Fc_trans; [apply Fc_R; exact H2|apply Fc_R; exact H3].
+  - rewrite Hdec. reflexivity.
+  - pose proof (R_trans _ _ _ H2 H3) as H23. destruct H23 as [_ (_ & _ & _ & _ & [E|(v & sg & E & F1 & F2)])].
+    + left. rewrite E. reflexivity.
+    + right. exists v, sg. rewrite Hdec. repeat split; assumption.
 Qed.
 
 (* ---- the per-step theorem ---- *)
@@ -605,13 +633,27 @@ Lemma Inv_new input now : Inv (new_instance input now).
 Proof. repeat split; cbn; try lia; congruence. Qed.
 Lemma Inv_clear_out i : Inv i -> Inv (clear_out i). Proof. exact (fun H => H). Qed.
 
-Theorem step_ordered c i e :
-  Inv i -> wfe e -> Rc i (step c i e) /\ Inv (step c i e) /\ (forall x, i_err i = Some x -> i_err (step c i e) = Some x) /\ Fc i (step c i e).
+(* how the DECIDE quorum state and the decision report evolve in one step *)
+Definition StepDec (i : inst) (e : event) (i' : inst) : Prop :=
+  (i_decision i' = i_decision i \/
+   exists now m sw, e = EvDeliver now m sw /\ m_phase m = DECIDE /\ i_decision i' = q_receive c (i_decision i) (m_sender m) (m_value m)) /\
+  (i_term i' = i_term i \/
+   exists v sg, i_term i' = Some (build_just 0 DECIDE v sg) /\
+                q_find_sq_value (i_decision i') = FsvSome v /\ q_find_sq_for c (i_decision i') v = FsqSome sg).
+Lemma StepDec_R i e i' : R i i' -> StepDec i e i'.
+Proof.
+  intros [_ (_ & Ed & _ & _ & [E|(v & sg & E & F1 & F2)])]; split; [left; exact Ed|left; exact E|left; exact Ed|].
+  right. exists v, sg. rewrite Ed. repeat split; assumption.
+Qed.
+
+Theorem step_ordered i e :
+  Inv i -> wfe e -> Rc i (step c i e) /\ Inv (step c i e) /\ (forall x, i_err i = Some x -> i_err (step c i e) = Some x) /\ Fc i (step c i e) /\
+  StepDec i e (step c i e).
 Proof.
   intros HI Hw. destruct e as [now|now m sway|now sway].
   - assert (H : R i (step c i (EvStart now))).
     { cbn. eapply R_trans; [apply R_same|apply R_begin_quality]. same_triv. }
-    split; [apply H|split; [eapply Inv_R; eauto|split; [apply H|apply Fc_R; exact H]]].
+    split; [apply H|split; [eapply Inv_R; eauto|split; [apply H|split; [apply Fc_R; exact H|apply StepDec_R; exact H]]]].
   - cbn [step]. set (i0 := set_now i now).
     assert (S0 : same i i0) by same_triv.
     assert (HI0 : Inv i0) by (eapply Inv_R; [exact HI|apply R_same; exact S0]).
@@ -620,11 +662,11 @@ Proof.
     destruct (phase_eqb (i_phase i0) TERMINATED) eqn:Ht.
     { (* terminated: the message is ignored *)
       unfold receive_one in Ero. rewrite Ht in Ero. inversion Ero; subst i1 changed. cbn [andb].
-      split; [apply (R_same _ _ S0)|split; [apply HI0|split; [intros x Hx; exact Hx|apply Fc_R, R_same; exact S0]]]. }
+      split; [apply (R_same _ _ S0)|split; [apply HI0|split; [intros x Hx; exact Hx|split; [apply Fc_R, R_same; exact S0|apply StepDec_R, R_same; exact S0]]]]. }
     apply phase_eqb_false in Ht.
     destruct (phase_eqb (m_phase m) DECIDE) eqn:Hmd.
     + apply phase_eqb_true in Hmd. cbn in Hw. specialize (Hw Hmd).
-      destruct (receive_one_decide c i0 m sway Hmd Hw Ht) as (HRc & Hfe & H5 & Hcl & Hfc). rewrite <- E1 in *.
+      destruct (receive_one_decide i0 m sway Hmd Hw Ht) as (HRc & Hfe & H5 & Hcl & Hfc & Hdq & Htm). rewrite <- E1 in *.
       assert (Hr1 : 0 <= i_round i1). { apply Rc_kle, kle_round in HRc. destruct HI0 as (H0 & _). cbn in *. lia. }
       assert (Hpost : (if changed && match i_err i1 with None => true | Some _ => false end then post_receive c i1 (m_round m) else i1) = i1).
       { destruct (changed && _); [|reflexivity]. unfold post_receive. rewrite Hw.
@@ -637,44 +679,46 @@ Proof.
       * exact Hfe.
       * apply Hfc.
       * apply Hfc.
+      * right. exists now, m, sway. repeat split; [exact Hmd|exact Hdq].
+      * exact Htm.
     + apply phase_eqb_false in Hmd.
-      pose proof (R_receive_one c i0 m sway Hmd) as HR1. rewrite <- E1 in HR1.
+      pose proof (R_receive_one i0 m sway Hmd) as HR1. rewrite <- E1 in HR1.
       destruct (changed && match i_err i1 with None => true | Some _ => false end) eqn:Hc.
       * apply andb_prop in Hc. destruct Hc as [_ Hc].
         assert (He1 : i_err i1 = None) by (destruct (i_err i1); [discriminate Hc|reflexivity]).
         assert (He0 : i_err i0 = None). { destruct HR1 as [_ [Hp _]]. destruct (i_err i0) as [x|]; [|reflexivity]. rewrite (Hp x eq_refl) in He1. discriminate He1. }
         assert (Hdc : dec_clear i0). { intros Ep. destruct HI0 as (_ & _ & I3). apply I3; assumption. }
-        pose proof (nt_receive_one c i0 m sway Hmd Hdc Ht) as Hnt. rewrite <- E1 in Hnt.
+        pose proof (nt_receive_one i0 m sway Hmd Hdc Ht) as Hnt. rewrite <- E1 in Hnt.
         assert (HR2 : R i1 (post_receive c i1 (m_round m))).
         { apply R_post_receive. pose proof (phase_code_range (i_phase i1)). destruct (i_phase i1); cbn; try lia; congruence. }
         assert (HR : R i (post_receive c i1 (m_round m))).
         { eapply R_trans; [apply R_same; exact S0|]. eapply R_trans; eauto. }
-        split; [apply HR|split; [eapply Inv_R; eauto|split; [apply HR|apply Fc_R; exact HR]]].
+        split; [apply HR|split; [eapply Inv_R; eauto|split; [apply HR|split; [apply Fc_R; exact HR|apply StepDec_R; exact HR]]]].
       * assert (HR : R i i1) by (eapply R_trans; [apply R_same; exact S0|exact HR1]).
-        split; [apply HR|split; [eapply Inv_R; eauto|split; [apply HR|apply Fc_R; exact HR]]].
+        split; [apply HR|split; [eapply Inv_R; eauto|split; [apply HR|split; [apply Fc_R; exact HR|apply StepDec_R; exact HR]]]].
   - assert (H : R i (step c i (EvAlarm now sway))).
     { cbn. eapply R_trans; [apply R_same|apply R_try_current_phase]. same_triv. }
-    split; [apply H|split; [eapply Inv_R; eauto|split; [apply H|apply Fc_R; exact H]]].
+    split; [apply H|split; [eapply Inv_R; eauto|split; [apply H|split; [apply Fc_R; exact H|apply StepDec_R; exact H]]]].
 Qed.
 
 (* ---- runs ---- *)
 (* the outputs of a run, oldest first, exactly as the trace checker (InstanceRun.run_trace) observes them *)
-Fixpoint run_hist (c : config) (i : inst) (evs : list event) : list out * inst :=
+Fixpoint run_hist (i : inst) (evs : list event) : list out * inst :=
   match evs with
   | [] => ([], i)
   | e :: rest => let i' := step c (clear_out i) e in
-                 let '(h, f) := run_hist c i' rest in (rev (i_out i') ++ h, f)
+                 let '(h, f) := run_hist i' rest in (rev (i_out i') ++ h, f)
   end.
 
-Lemma run_hist_chain c evs : forall i, Inv i -> Forall wfe evs ->
-  chain_ok (pkey i) (fst (run_hist c i evs)) (pkey (snd (run_hist c i evs))) /\ Inv (snd (run_hist c i evs)).
+Lemma run_hist_chain evs : forall i, Inv i -> Forall wfe evs ->
+  chain_ok (pkey i) (fst (run_hist i evs)) (pkey (snd (run_hist i evs))) /\ Inv (snd (run_hist i evs)).
 Proof.
   induction evs as [|e evs IH]; intros i HI Hw; cbn [run_hist].
   - split; [apply kle_refl|exact HI].
   - inversion Hw as [|? ? Hwe Hwr]; subst.
-    destruct (step_ordered c (clear_out i) e (Inv_clear_out i HI) Hwe) as (HRc & HI' & _ & _).
+    destruct (step_ordered (clear_out i) e (Inv_clear_out i HI) Hwe) as (HRc & HI' & _ & _ & _).
     specialize (IH (step c (clear_out i) e) HI' Hwr).
-    destruct (run_hist c (step c (clear_out i) e) evs) as [h f]. cbn [fst snd] in *.
+    destruct (run_hist (step c (clear_out i) e) evs) as [h f]. cbn [fst snd] in *.
     destruct IH as [IH1 IH2]. split; [|exact IH2].
     destruct HRc as (added & Ea & Hc). cbn in Ea. rewrite app_nil_r in Ea. rewrite Ea.
     eapply chain_ok_app; [exact Hc|exact IH1].
@@ -708,26 +752,28 @@ Proof.
 Qed.
 
 (* C07: at most one message per (round, step) over EVERY event sequence *)
-Theorem one_message_per_slot c input now evs :
-  Forall wfe evs -> NoDup (slots (fst (run_hist c (new_instance input now) evs))).
+Theorem one_message_per_slot input now evs :
+  Forall wfe evs -> NoDup (slots (fst (run_hist (new_instance input now) evs))).
 Proof.
-  intros Hw. destruct (run_hist_chain c evs (new_instance input now) (Inv_new input now) Hw) as [H _].
+  intros Hw. destruct (run_hist_chain evs (new_instance input now) (Inv_new input now) Hw) as [H _].
   eapply chain_ok_nodup; exact H.
 Qed.
 
 (* C07: (round, step) progress never moves backwards *)
 Definition progress_le (a b : inst) : Prop :=
   i_round a < i_round b \/ (i_round a = i_round b /\ phase_code (i_phase a) <= phase_code (i_phase b)).
-Theorem progress_monotone c i e : Inv i -> wfe e -> progress_le i (step c i e).
+Theorem progress_monotone i e : Inv i -> wfe e -> progress_le i (step c i e).
 Proof.
-  intros HI Hw. destruct (step_ordered c i e HI Hw) as (HRc & _ & _ & _). apply Rc_kle in HRc.
+  intros HI Hw. destruct (step_ordered i e HI Hw) as (HRc & _ & _ & _ & _). apply Rc_kle in HRc.
   unfold progress_le. destruct HRc as [E|[[H|[H1 H2]] _]]; cbn in *; [|lia|lia].
   injection E as E1 E2. lia.
 Qed.
 (* ... and the invariant it needs holds in every state reachable from a fresh instance *)
-Theorem reachable_Inv c input now evs : Forall wfe evs -> Inv (snd (run_hist c (new_instance input now) evs)).
-Proof. intros Hw. apply (run_hist_chain c evs _ (Inv_new input now) Hw). Qed.
+Theorem reachable_Inv input now evs : Forall wfe evs -> Inv (snd (run_hist (new_instance input now) evs)).
+Proof. intros Hw. apply (run_hist_chain evs _ (Inv_new input now) Hw). Qed.
 
 (* C07: the candidate set only grows and the input is never replaced, in every step *)
-Theorem candidates_monotone c i e : Inv i -> wfe e -> Fc i (step c i e).
-Proof. intros HI Hw. apply (step_ordered c i e HI Hw). Qed.
+Theorem candidates_monotone i e : Inv i -> wfe e -> Fc i (step c i e).
+Proof. intros HI Hw. apply (step_ordered i e HI Hw). Qed.
+
+End Cfg.
